@@ -22,7 +22,7 @@ def one(d):
             out.append(f"{p} " + " | ".join(l for l in r.stdout.splitlines() if "ANALYSIS-ERROR" in l)[:200])
     shutil.rmtree(tmp)
     return d, out
-with ThreadPoolExecutor(8) as ex:
+with ThreadPoolExecutor(int(os.environ.get('JOBS', '14'))) as ex:
     res = list(ex.map(one, diffs))
 bad = 0
 for d, out in res:
